@@ -184,6 +184,12 @@ def check_c10(case, acc):
             arg = dict(step['weights'])
         book.p.update(step['prices'])
         sub = dict(case, weights=dict(step['weights']), prices=dict(case['prices'], **step['prices']))
+        if step.get('new_buffer') is not None:
+            # the class documents that the buffer "can be modified": the attribute is re-assigned on the live sizer
+            sizer.cash_buffer_percentage = step['new_buffer']
+            case = dict(case, buffer=step['new_buffer'])          # ... and stays in force for the later calls
+            sub['buffer'] = step['new_buffer']
+            acc.count('C10:calls_after_the_buffer_was_reassigned')
         try:
             res = sizer(t, arg)
         except Exception as e:
@@ -572,7 +578,10 @@ def gen_case(rng, long_only):
             p2 = {a: (bw.rand_price(rng) if rng.random() < 0.3 else prices[a]) for a in assets}
             if not long_only:
                 pass
-            more.append({'weights': w2, 'prices': p2, 'in_place': rng.random() < 0.5})
+            step_ = {'weights': w2, 'prices': p2, 'in_place': rng.random() < 0.5}
+            if long_only and rng.random() < 0.4:
+                step_['new_buffer'] = rng.choice([0.0, 0.05, 0.25, 1.0, round(rng.random(), 3)])
+            more.append(step_)
         case['more'] = more
     if inv < 0.12:
         k = rng.choice(['nan_price', 'neg_weight' if long_only else 'bad_leverage',
